@@ -50,7 +50,7 @@ fn mk_scheme() -> Scheme {
 }
 
 #[kani::proof]
-#[kani::unwind(5)]
+#[kani::unwind(2)]
 #[kani::stub(rand::rngs::thread::rng, rng_stub)]
 fn c01_absent_value_default() {
     let s = mk_scheme();
@@ -130,7 +130,7 @@ fn recording_impl<'i, 'a>(args: FunctionArgs<'i, 'a>) -> Option<LhsValue<'a>> {
 /// supplies 1, 2 or 3 arguments: the implementation sees the supplied values
 /// followed by the defaults of exactly the omitted parameters, in order.
 #[kani::proof]
-#[kani::unwind(6)]
+#[kani::unwind(4)]
 fn c03_optional_defaults() {
     let d0: i64 = kani::any();
     let d1: i64 = kani::any();
